@@ -2,6 +2,7 @@ CONSTANTS
   StopMode = "none"
   Lys = @LYS@
   Tier = "@TIER@"
+  Depth = @DEPTH@
 INIT FamInit
 NEXT Next
 INVARIANTS NoStuck HeapWF AnyConcrete
